@@ -8,9 +8,13 @@ use std::num::NonZeroUsize;
 use bytes::{Bytes, BytesMut};
 use futures::FutureExt;
 use swimos_agent_protocol::MapOperation;
-use swimos_api::agent::UplinkKind;
 use swimos_messages::protocol::{Notification, RawResponseMessageDecoder, ResponseMessage};
-use swimos_runtime::verif_hooks::agent::task::{LaneData, UplinkResponse, WriteState, WriteTask};
+use swimos_agent_protocol::encoding::lane::{RawMapLaneResponseEncoder, RawValueLaneResponseEncoder};
+use swimos_agent_protocol::LaneResponse;
+use swimos_runtime::verif_hooks::agent::task::{ResponseReceiver, WriteState, WriteTask};
+use futures::StreamExt;
+use tokio::io::AsyncWriteExt;
+use tokio_util::codec::Encoder;
 use swimos_utilities::byte_channel::{byte_channel, ByteReader};
 use tokio::io::AsyncReadExt;
 use tokio_util::codec::Decoder;
@@ -39,18 +43,39 @@ impl Resp {
             Resp::MapClear => "RMap EClear".into(),
         }
     }
-    fn to_response(&self) -> UplinkResponse {
+    /// What the lane itself writes to its output channel for this response (the runtime's receiver turns it into
+    /// an UplinkResponse for the write task).
+    fn lane_bytes(&self, target: Option<Uuid>) -> BytesMut {
         let b = |s: String| BytesMut::from(s.as_bytes());
+        let mut out = BytesMut::new();
+        let wrap = |body: Bytes| match target {
+            Some(id) => LaneResponse::SyncEvent(id, body),
+            None => LaneResponse::StandardEvent(body),
+        };
         match self {
-            Resp::Synced(0) => UplinkResponse::Synced(UplinkKind::Value),
-            Resp::Synced(1) => UplinkResponse::Synced(UplinkKind::Supply),
-            Resp::Synced(_) => UplinkResponse::Synced(UplinkKind::Map),
-            Resp::Value(v) => UplinkResponse::Value(Bytes::from(v.clone())),
-            Resp::Supply(v) => UplinkResponse::Supply(Bytes::from(v.clone())),
-            Resp::MapUpdate(k, v) => UplinkResponse::Map(MapOperation::Update { key: b(k.to_string()), value: b(v.to_string()) }),
-            Resp::MapRemove(k) => UplinkResponse::Map(MapOperation::Remove { key: b(k.to_string()) }),
-            Resp::MapClear => UplinkResponse::Map(MapOperation::Clear),
+            Resp::Synced(k) => {
+                let id = target.expect("a synced marker without an addressee");
+                if *k == 2 {
+                    RawMapLaneResponseEncoder::default().encode(LaneResponse::<MapOperation<BytesMut, BytesMut>>::Synced(id), &mut out).unwrap();
+                } else {
+                    RawValueLaneResponseEncoder::default().encode(LaneResponse::<Bytes>::Synced(id), &mut out).unwrap();
+                }
+            }
+            Resp::Value(v) | Resp::Supply(v) => RawValueLaneResponseEncoder::default().encode(wrap(Bytes::from(v.clone())), &mut out).unwrap(),
+            Resp::MapUpdate(..) | Resp::MapRemove(_) | Resp::MapClear => {
+                let op: MapOperation<BytesMut, BytesMut> = match self {
+                    Resp::MapUpdate(k, v) => MapOperation::Update { key: b(k.to_string()), value: b(v.to_string()) },
+                    Resp::MapRemove(k) => MapOperation::Remove { key: b(k.to_string()) },
+                    _ => MapOperation::Clear,
+                };
+                let item = match target {
+                    Some(id) => LaneResponse::SyncEvent(id, op),
+                    None => LaneResponse::StandardEvent(op),
+                };
+                RawMapLaneResponseEncoder::default().encode(item, &mut out).unwrap();
+            }
         }
+        out
     }
 }
 fn coq_nlist(b: &[u8]) -> String {
@@ -132,6 +157,17 @@ async fn run(nlanes: u64, kinds: &[u8], ops: &[Op]) -> (Vec<String>, Vec<String>
     for l in 0..nlanes {
         assert_eq!(state.register_lane(&lane_name(l)), l);
     }
+    // every lane's own output channel, read by the runtime's receiver for a lane of that kind
+    let mut lane_io = vec![];
+    for l in 0..nlanes {
+        let (tx, rx) = byte_channel(NonZeroUsize::new(1 << 16).unwrap());
+        let receiver = match kinds[l as usize] {
+            0 => ResponseReceiver::<u64>::value_like_lane(l, None, rx),
+            1 => ResponseReceiver::<u64>::supply_lane(l, None, rx),
+            _ => ResponseReceiver::<u64>::map_lane(l, None, rx),
+        };
+        lane_io.push((tx, receiver));
+    }
     let mut remotes: HashMap<u64, Remote> = HashMap::new();
     let mut inflight: HashMap<u64, WriteTask> = HashMap::new();
     let mut keep = vec![];
@@ -170,8 +206,30 @@ async fn run(nlanes: u64, kinds: &[u8], ops: &[Op]) -> (Vec<String>, Vec<String>
                 start(t.into_iter().collect(), &mut inflight, &mut started_by, op_index);
             }
             Op::Event(l, target, rs) => {
-                let ts = state.handle_event(*l, LaneData::new(target.map(rid), rs.to_response()));
-                start(ts, &mut inflight, &mut started_by, op_index);
+                // the lane writes the response, the runtime's receiver reads it and hands it to the write task
+                let (tx, receiver) = &mut lane_io[*l as usize];
+                tx.write_all(rs.lane_bytes(target.map(rid)).as_ref()).await.expect("lane channel closed");
+                let mut idle = 0;
+                let mut taken = 0;
+                while idle < 3 {
+                    match receiver.next().now_or_never() {
+                        Some(Some(Ok(item))) => {
+                            idle = 0;
+                            taken += 1;
+                            let (id, data) = item.into_uplink_response().expect("a lane response that is not for an uplink");
+                            assert_eq!(id, *l, "a response attributed to another lane");
+                            let ts = state.handle_event(id, data);
+                            start(ts, &mut inflight, &mut started_by, op_index);
+                        }
+                        Some(Some(Err(e))) => panic!("the receiver failed: {:?}", e),
+                        Some(None) => panic!("the lane channel ended"),
+                        None => {
+                            idle += 1;
+                            tokio::task::yield_now().await;
+                        }
+                    }
+                }
+                assert_eq!(taken, 1, "one lane response must give one item");
             }
             Op::Done(r) => {
                 if let Some(task) = inflight.remove(r) {
@@ -380,7 +438,7 @@ fn main() {
     let meta = J::obj(vec![
         ("evaluations", J::I(w.len() as i128)),
         ("distinct_nontrivial", J::I(nontrivial as i128)),
-        ("rule", J::s("operation sequences on the real WriteTaskState (through the WriteState hook): 1-3 remotes, 4 lanes (value, supply, map, value); link / unlink / unknown-lane coordination messages, broadcast lane events, sync answers (targeted state + synced, implicit link when not linked), lane removal, unlink-all, remote removal; write completions (Done) placed at random with a per-case bias, so that responses pile up behind a write in flight; empty value / supply bodies included; every WriteTask future is run on a channel with room and what it wrote is decoded with the real RawResponseMessageDecoder; non-trivial = at least 6 lane events with a synced and an unlinked on the wire; distinct by rendered case")),
+        ("rule", J::s("operation sequences on the real WriteTaskState (through the WriteState hook); every lane response is written as the lane writes it (RawValueLaneResponseEncoder / RawMapLaneResponseEncoder: event, sync event, synced) into the lane's own channel and read by the runtime's real ResponseReceiver for a lane of that kind, whose item is what the write task is given: 1-3 remotes, 4 lanes (value, supply, map, value); link / unlink / unknown-lane coordination messages, broadcast lane events, sync answers (targeted state + synced, implicit link when not linked), lane removal, unlink-all, remote removal; write completions (Done) placed at random with a per-case bias, so that responses pile up behind a write in flight; empty value / supply bodies included; every WriteTask future is run on a channel with room and what it wrote is decoded with the real RawResponseMessageDecoder; non-trivial = at least 6 lane events with a synced and an unlinked on the wire; distinct by rendered case")),
         ("structures", J::counts(&kinds_count)),
         ("samples", J::A(samples)),
     ]);
